@@ -24,6 +24,8 @@ def tasks(tier, seed):
                 if (n, K) == (2, 3):
                     t.append(("contracts.gemini_eval", "task", (cls, ovo, n, K, "C02", "clipped-mixed", seed), to,
                               f"{cls}[{'ovo' if ovo else 'ova'},{n}x{K},clipped-mixed]"))
+    # B: the same contracts replayed on the real code at a ladder of larger shapes (stand-in for the missing induction over n, K)
+    t.append(("contracts.size_ladder", "task", ("gemini", tier, seed, (("modes", ("C02",)),)), 1500, "size ladder: GEMINI gradients"))
     return t
 
 
